@@ -5,16 +5,18 @@
 (* The reference is EvalG of Filter.tla.  This module defines the bounded  *)
 (* domain, checks the boolean laws on the reference itself, and prints one *)
 (* JSON line per case                                                      *)
-(*    {"f": AST, "r0": [64 x 0/1], "r1": [64 x 0/1]}                        *)
+(*    {"f": AST, "r0": [64 x 0/1], "r1": [..], "b0": [..], "b1": [..]}      *)
 (* where r0[i] / r1[i] is the reference result on attribute map number     *)
-(* i-1 with NeMissing = FALSE / TRUE.  The Go harness (cmd/filtercheck)    *)
+(* i-1 with NeMissing = FALSE / TRUE (b0 / b1: the same under the second   *)
+(* prefix structure, see PrefixPairs).  The Go harness (cmd/filtercheck)   *)
 (* renders the AST to concrete syntax, runs the real parser and evaluator  *)
 (* on all 64 maps and compares.                                            *)
 (*                                                                         *)
 (* Vocabulary (ids; the harness maps them to several concrete              *)
 (* vocabularies): names n1 n2 n3; values v0 v1 v2 where v0 is the EMPTY    *)
-(* string and v1 is a proper, non-empty prefix of v2.  TLC strings are     *)
-(* atomic, hence the prefix relation is the explicit set PrefixPairs.      *)
+(* string and v1 is a proper, non-empty prefix of v2 (structure A) or a    *)
+(* proper substring that is not a prefix (structure B).  TLC strings are   *)
+(* atomic, hence the prefix relation is the explicit set PrefixPairs(B).   *)
 (*                                                                         *)
 (* Attribute map number m (0..63): name j (1..3) has code (m \div 4^(j-1)) *)
 (* % 4; code 0 = attribute absent, code c > 0 = value ValSeq[c].           *)
@@ -42,9 +44,15 @@ ValSeq  == <<"v0", "v1", "v2">>
 Names   == {"n1", "n2", "n3"}
 Values  == {"v0", "v1", "v2"}
 
-\* <<v, p>> : p is a prefix of v.   v0 = "",  v1 proper prefix of v2.
-PrefixPairs == {<<v, v>> : v \in Values} \cup {<<v, "v0">> : v \in Values} \cup {<<"v2", "v1">>}
-IsPre(v, p) == <<v, p>> \in PrefixPairs
+\* <<v, p>> : p is a prefix of v.  Two prefix structures on the same ids:
+\*   A:  v0 = "",  v1 a proper non-empty prefix of v2            (e.g. "a", "ab")
+\*   B:  v0 = "",  v1 a proper substring but NOT a prefix of v2  (e.g. "b", "ab")
+\* so that hasPrefix is told apart from "contains" / "has suffix".  They differ
+\* only in the pair <<v2, v1>>, hence only for ASTs with a leaf pre(k, v1).
+PrefixPairsB == {<<v, v>> : v \in Values} \cup {<<v, "v0">> : v \in Values}
+PrefixPairs  == PrefixPairsB \cup {<<"v2", "v1">>}
+IsPre(v, p)  == <<v, p>> \in PrefixPairs
+IsPreB(v, p) == <<v, p>> \in PrefixPairsB
 
 NLeaf == 30
 LeafAt(l) ==
@@ -64,9 +72,28 @@ Maps == [i \in 1..NMaps |-> MapAt(i - 1)]
 
 B(e) == IF e THEN 1 ELSE 0
 E(f, i, nm) == EvalG(f, Maps[i], IsPre, nm)
-Case(f) == [f  |-> f,
-            r0 |-> [i \in 1..NMaps |-> B(E(f, i, FALSE))],
-            r1 |-> [i \in 1..NMaps |-> B(E(f, i, TRUE))]]
+R(f, P(_, _), nm) == [i \in 1..NMaps |-> B(EvalG(f, Maps[i], P, nm))]
+
+RECURSIVE NeSens(_), PreSens(_)
+NeSens(f) ==      \* has a leaf  attributes.k != v
+  CASE f.op \in {"not", "par"} -> NeSens(f.x)
+    [] f.op \in {"and", "or"} -> \E i \in DOMAIN f.xs : NeSens(f.xs[i])
+    [] OTHER -> f.op = "ne"
+PreSens(f) ==     \* has a leaf  hasPrefix(attributes.k, v1)
+  CASE f.op \in {"not", "par"} -> PreSens(f.x)
+    [] f.op \in {"and", "or"} -> \E i \in DOMAIN f.xs : PreSens(f.xs[i])
+    [] OTHER -> f.op = "pre" /\ f.v = "v1"
+
+\* r0 / r1: prefix structure A, NeMissing FALSE / TRUE;  b0 / b1: structure B.
+\* A field is printed only when it can differ: r1 when the AST has a "ne"
+\* leaf (else r1 = r0), b0 when it has a leaf pre(k, v1) (else b0 = r0),
+\* b1 when both (else b1 = b0 resp. r1).
+None == [x \in {} |-> 0]
+Case(f) ==
+  [f |-> f, r0 |-> R(f, IsPre, FALSE)]
+  @@ (IF NeSens(f) THEN [r1 |-> R(f, IsPre, TRUE)] ELSE None)
+  @@ (IF PreSens(f) THEN [b0 |-> R(f, IsPreB, FALSE)] ELSE None)
+  @@ (IF PreSens(f) /\ NeSens(f) THEN [b1 |-> R(f, IsPreB, TRUE)] ELSE None)
 Emit(f) == PrintT(ToJson(Case(f)))
 
 ---------------------------------------------------------------------------
